@@ -72,4 +72,19 @@ int __wrap___tsan_atomic8_compare_exchange_weak(volatile a8* a, a8* c, a8 v, int
   ada_verif_yield(A_ATOMIC8);
   return __real___tsan_atomic8_compare_exchange_weak(a, c, v, mo, fmo);
 }
+
+// What clang's ThreadSanitizer pass actually emits for a cmpxchg instruction - weak or strong alike - is
+// compare_exchange_val (returns the old value; success is recomputed by comparing it with the expected value). A
+// spurious failure of the weak form can therefore not be injected here, and x86 hardware never produces one either:
+// a missing retry loop around compare_exchange_weak is invisible to this simulator (DESIGN 9.6).
+a8 __real___tsan_atomic8_compare_exchange_val(volatile a8* a, a8 c, a8 v, int mo, int fmo);
+a32 __real___tsan_atomic32_compare_exchange_val(volatile a32* a, a32 c, a32 v, int mo, int fmo);
+a8 __wrap___tsan_atomic8_compare_exchange_val(volatile a8* a, a8 c, a8 v, int mo, int fmo) {
+  ada_verif_yield(A_ATOMIC8);
+  return __real___tsan_atomic8_compare_exchange_val(a, c, v, mo, fmo);
+}
+a32 __wrap___tsan_atomic32_compare_exchange_val(volatile a32* a, a32 c, a32 v, int mo, int fmo) {
+  ada_verif_yield(A_ATOMIC32);
+  return __real___tsan_atomic32_compare_exchange_val(a, c, v, mo, fmo);
+}
 }
